@@ -975,6 +975,9 @@ class ModuleVistor(NodeVisitor):
                         # Avoid format_summary() going back to the original
                         # empty-body docstring.
                         attr.docstring = ''
+                    else:
+                        # The docstring has its own description: keep the field.
+                        other_fields.append(field)
                 elif tag == 'rtype':
                     attr.parsed_type = field.body()
                 else:
